@@ -954,16 +954,8 @@ impl<T: Transport, Env: UtpEnvironment> VirtualSocket<T, Env> {
             trace!("just_before_death: no error");
         }
 
-        if let Some(e) = error {
-            self.user_rx.enqueue_error(format!("{e:#}"));
-        }
-
-        // This will close the reader.
-        self.user_rx.mark_vsock_closed();
-
-        // This will close the writer.
-        self.user_tx.mark_vsock_closed();
-
+        // (The FIN goes first: handing the error over empties the reassembly queue into the
+        // reader's, and the window in the FIN's header should not reflect that.)
         if error.is_some() && !self.state.is_local_fin_or_later() {
             let mut fin = self.outgoing_header();
             fin.set_type(Type::ST_FIN);
@@ -973,6 +965,16 @@ impl<T: Transport, Env: UtpEnvironment> VirtualSocket<T, Env> {
                 trace!("error sending FIN: {e:#}")
             }
         }
+
+        if let Some(e) = error {
+            self.user_rx.enqueue_error(format!("{e:#}"));
+        }
+
+        // This will close the reader.
+        self.user_rx.mark_vsock_closed();
+
+        // This will close the writer.
+        self.user_tx.mark_vsock_closed();
     }
 
     fn state_is_closed(&self) -> bool {
